@@ -206,7 +206,7 @@ func clip(s string) string {
 }
 
 var c17Schemes = []string{"http", "https", "ws", "wss", "ftp", "chrome-extension", "HTTP", "moz-extension", "h2"}
-var c17Labels = []string{"example", "google", "www", "a", "b", "x-y", "cdn1", "sub", "city", "foo", "t", "me", "ck", "EXAMPLE", "xn--p1ai", "1", "x_y"}
+var c17Labels = []string{"example", "google", "www", "a", "b", "x-y", "cdn1", "sub", "city", "foo", "t", "me", "ck", "EXAMPLE", "xn--p1ai", "1", "x_y", strings.Repeat("x", 63), strings.Repeat("y", 62)}
 var c17Suffixes = []string{"com", "org", "net", "co.uk", "uk", "ck", "www.ck", "kobe.jp", "city.kobe.jp", "github.io", "blogspot.com", "local", "test", "jp", "com.au", "s3.amazonaws.com", "appspot.com", "xn--p1ai", "COM",
 	"s3.dualstack.us-east-1.amazonaws.com", "app.os.stg.fedoraproject.org", "execute-api.cn-north-1.amazonaws.com.cn"} // long private suffix rules
 
